@@ -112,7 +112,7 @@ def sync_tables(ctx):
     field happens under msgType == TX, every store to the RX table under msgType == RX."""
     m = ctx.m
     TXF = set([('CO_SYNC', 'TPdo'), ('CO_SYNC', 'TNum'), ('CO_SYNC', 'TSync')])
-    RXF = set([('CO_SYNC', 'RPdo')])
+    RXF = set([('CO_SYNC', 'RPdo'), ('CO_SYNC', 'RFrm')])
     TX, RX = 1, 2
     for f in ('COSyncAdd', 'COSyncRemove'):
         m.need(f)
@@ -129,10 +129,17 @@ def sync_tables(ctx):
                 continue
             for (p, rhs, n) in flow.assigned_paths(node.x):
                 l = strip(n.kids[0]) if n.k != 'var' else None
+                # the table the store goes into: the innermost table field on the access path
+                # (sync->RFrm[num].Identifier is a store into the RX frame table)
                 t = l
-                while t is not None and t.k == 'idx':
+                hit = None
+                while t is not None and t.k in ('idx', 'mem'):
+                    if t.k == 'mem' and t.field in (TXF | RXF):
+                        hit = t
+                        break
                     t = strip(t.kids[0])
-                if t is None or t.k != 'mem' or t.field not in (TXF | RXF):
+                t = hit
+                if t is None:
                     continue
                 want = TX if t.field in TXF else RX
                 props = ['C12'] if t.field in TXF else ['C13']
@@ -214,7 +221,7 @@ def sync_counting(ctx):
             site = 'COSyncHandler type=%d counter=%d' % (tnum, cnt)
             if bad:
                 ctx.ob(P, 'RF1-sync-count', f, site, None)
-                ctx.find(P, 'RF1-sync-count', f, 'handler:%d:%d' % (tnum, cnt), m.loc(f, m.funcs[f].line), '%s: %s' % (site, bad))
+                ctx.find(P + ['C16'], 'RF1-sync-count', f, 'handler:%d:%d' % (tnum, cnt), m.loc(f, m.funcs[f].line), '%s: %s' % (site, bad))
             else:
                 ctx.ob(P, 'RF1-sync-count', f, site, 'sent' if ((tnum == 0) or cnt == tnum) else 'not due')
 
@@ -597,7 +604,38 @@ def sync_registration(ctx):
     ctx.require_min(['C12', 'C13', 'C16'], 'RF2-sync-reg', nsites, 3, 'stores that may clear a SYNC registration bit')
 
 
+def link_table(ctx):
+    """object -> TPDO link table (COTPdoMapAdd): a link is a PAIR (object, TPDO number).  Adding (obj, n) takes the
+    first free slot whatever the earlier slots hold - in particular when the same object is already linked to ANOTHER
+    TPDO (one signal mapped into two event-driven TPDOs: each must be triggered by a change of the object)."""
+    m = ctx.m
+    f = 'COTPdoMapAdd'
+    m.need(f)
+    props = ['C12', 'C14']
+    OBJ, OTHER = 0x9000, 0x8000
+    for (first_obj, first_num, what) in ((OBJ, 0, 'the same object linked to another TPDO'), (OTHER, 2, 'another object linked to the same TPDO'),
+                                         (OTHER, 0, 'another object, another TPDO')):
+        pe = PEval(m, f)
+        pe.record_sets = False
+        pe.store_filter = lambda k, fld: fld is not None and fld[0] == 'CO_TPDO_LINK'
+        trs = pe.run({'map': 1, 'obj': OBJ, 'num': 2, 'map[0].Obj': first_obj, 'map[0].Num': first_num, 'map[1].Obj': 0})
+        site = 'COTPdoMapAdd(obj, 2) with slot 0 = %s' % what
+        bad = None
+        for t in trs:
+            st = dict((e[1], e[2]) for e in t.stores())
+            if st != {'map[1].Obj': OBJ, 'map[1].Num': 2}:
+                bad = 'stores %s, required the pair (obj, 2) in the first free slot 1' % (st or 'nothing')
+        if not trs:
+            bad = 'no path'
+        if bad:
+            ctx.ob(props, 'RF2-tpdo-link', f, site, None)
+            ctx.find(props, 'RF2-tpdo-link', f, 'link:%s' % what[:30], m.loc(f, m.funcs[f].line), '%s: %s' % (site, bad))
+        else:
+            ctx.ob(props, 'RF2-tpdo-link', f, site, 'pair stored in the first free slot')
+
+
 def run(ctx):
+    link_table(ctx)
     sync_registration(ctx)
     tpdo_tx_gates(ctx)
     sync_tables(ctx)
